@@ -464,7 +464,7 @@ def last_call_memos(run, rule, mi, name, fn):
     return n
 
 
-def check_caches(run, modules, rule, functions=None, prog=None):
+def check_caches(run, modules, rule, functions=None, prog=None, zero_is_a_value=False):
     """modules: iterable of ModuleInfo. Reports stores into shared containers whose key misses a dependency."""
     run.describe(rule, 'values cached in module-level or instance-held containers are keyed by every parameter they depend on, at the '
                        'granularity the value uses (results depend on the arguments only)')
@@ -512,6 +512,8 @@ def check_caches(run, modules, rule, functions=None, prog=None):
                         ann_, nm_ = getattr(d_, 'cy_type', None) or (d_.annotation.value if isinstance(d_.annotation, ast.Constant) else None), d_.target.id
                     elif isinstance(d_, ast.arg) and d_.annotation is not None and isinstance(d_.annotation, ast.Constant):
                         ann_, nm_ = d_.annotation.value, d_.arg
+                    elif isinstance(d_, ast.arg) and getattr(d_, 'cy_type', None):
+                        ann_, nm_ = d_.cy_type, d_.arg
                     if isinstance(ann_, str) and (ann_ == 'float' or ann_.startswith('float[') or ann_ == 'const float'):
                         nstores += 1
                         run.subject(rule)
@@ -519,6 +521,14 @@ def check_caches(run, modules, rule, functions=None, prog=None):
                                  "%s declares '%s' as a C float: every value of the package is a double, so a quantity held in this variable is "
                                  "rounded to 24 bits and overflows to infinity above 3.4e38 (sums of squares of photon rates do), which changes "
                                  "results and convergence tests for inputs the double-precision code handles" % (name, nm_))
+            from .rules._purity import falsy_numeric_default
+            # only where 0 is a meaningful argument (bounds, coordinates of the function wrappers); elsewhere 'count or default' treats 0 as 'unset' on purpose
+            for n_, x_ in (falsy_numeric_default(fn) if zero_is_a_value else ()):
+                nstores += 1
+                run.subject(rule)
+                run.fail(rule, '%s|%s|falsy-default:%s' % (mi.name, name, x_), mi.relpath, n_.lineno,
+                         "%s resolves an optional number with '%s': a value of exactly 0 is falsy and is replaced by the default as if nothing had "
+                         "been given (a bound, offset or count of zero is a legal argument); the test for 'not given' is 'is None'" % (name, norm(n_)[:50]))
             from .rules._purity import truncated_near_integer
             for c_, q_ in truncated_near_integer(fn):
                 nstores += 1
